@@ -29,7 +29,8 @@ OutStep(s, ev) ==
       refused == ev.status # 0 /\ ~MarkupRepresentable(s.ref, enc)
       ok == /\ seen
             /\ CASE m = "xml"  -> refused \/ (ran /\ xmlTree /\ DeclOK(o, ev.decl) /\ DoctypeOK(o, ev.doctype, s.ref, m))
-                 [] m = "html" -> refused \/ (ran /\ htmlTree /\ DoctypeOK(o, ev.doctype, s.ref, m))
+                 [] m = "html" -> refused \/ (ev.status # 0 /\ ~HtmlRawRepresentable(s.ref, enc, FALSE))
+                                  \/ (ran /\ htmlTree /\ DoctypeOK(o, ev.doctype, s.ref, m))
                  [] m = "text" -> IF RepresentableIn(txt, enc) THEN ran /\ ev.text = txt
                                   ELSE ev.status # 0          \* 16.3: "should signal an error"
       why == IF ~seen THEN "parsed as " \o ev.kind \o "/" \o ev.enc \o " but the options mean " \o m \o "/" \o enc
